@@ -131,7 +131,10 @@ def tlc(module, cfg, metadir, env=None, workers=4, timeout=1800, heap='4g', simu
     """Run TLC on spec/<module>.tla with spec/<cfg>.  Returns TlcResult.  Raises ToolError on TLC errors
     other than invariant violations (which are returned in .errors)."""
     e = dict(os.environ)
-    e['JAVA_TOOL_OPTIONS'] = '-Xss1g -Dtlc2.tool.queue.IStateQueue=StateDeque'
+    # TLC's temporary directories go under the work directory of the check (removed with it), not under /tmp
+    jtmp = os.path.join(os.path.dirname(os.path.abspath(metadir)), 'jtmp')
+    os.makedirs(jtmp, exist_ok=True)
+    e['JAVA_TOOL_OPTIONS'] = '-Xss1g -Dtlc2.tool.queue.IStateQueue=StateDeque -Djava.io.tmpdir=' + jtmp
     # VERIF_MAX_HEAP=3g caps every TLC heap (for running many checks side by side, e.g. tools/mutant.sh batches)
     cap = os.environ.get('VERIF_MAX_HEAP')
     if cap and cap.endswith('g') and heap.endswith('g') and int(cap[:-1]) < int(heap[:-1]):
